@@ -42,6 +42,7 @@ type concEv struct {
 }
 
 type concRun struct {
+	cancelAt, boundaries, cancelled int32 // c05: CancelGC at the cancelAt-th file boundary of the pass (1 = before the first file)
 	clock   int64
 	mu      sync.Mutex
 	evs     []concEv
@@ -98,6 +99,16 @@ func concHook(point string, args ...interface{}) {
 		}
 	case "gc.end":
 		atomic.AddInt32(&cr.passes, -1)
+	case "gc.prepared", "gc.file.done":
+		// c05: the pass is cancelled at a chosen file boundary (CancelGC, as the admin command does)
+		if ca := atomic.LoadInt32(&cr.cancelAt); ca > 0 {
+			if atomic.AddInt32(&cr.boundaries, 1) == ca {
+				if st := curStore; st != nil {
+					st.hs.CancelGC(0)
+					atomic.AddInt32(&cr.cancelled, 1)
+				}
+			}
+		}
 	}
 	if point == cr.parkPoint && cr.parkKey != "" && len(args) > 0 {
 		if k, ok := args[0].(string); ok && k == cr.parkKey {
@@ -492,6 +503,11 @@ func concCase(c *Ctx, r *RNG, id, home, mix string) {
 		merge := r.Chance(30)
 		if vhRace {
 			merge = false
+		}
+		if !vhRace && r.Fork(79).Chance(25) {
+			// "(or is cancelled)": CancelGC at a file boundary: before the first file, or after the first / second one
+			atomic.StoreInt32(&cr.cancelAt, int32(1+r.Fork(80).Intn(3)))
+			c.count(fmt.Sprintf("c05.cancel-at-boundary-%d", cr.cancelAt-1))
 		}
 		c.line("gcstart begin=%d end=%d merge=%v park=%s at=%s", begin, end, merge, hx([]byte(cr.parkKey)), cr.parkPoint)
 		go func() {
